@@ -84,7 +84,7 @@ def batch(args):
         if deadline and env.real_time() >= deadline:
             break
         if k < args.det:
-            index = slot + len(HASHSEEDS) * k
+            index = slot + len(HASHSEEDS) * ((args.det - 1 - k) if args.det_reverse else k)
             is_det = True
         else:
             index = slot + len(HASHSEEDS) * (args.det + sub * args.nsub + args.sub)
@@ -236,6 +236,7 @@ def main(argv=None):
     ap.add_argument('--sub', type=int, default=0)
     ap.add_argument('--nsub', type=int, default=1)
     ap.add_argument('--det', type=int, default=0)
+    ap.add_argument('--det-reverse', action='store_true')
     ap.add_argument('--max-runs', type=int, default=0)
     ap.add_argument('--limit-index', type=int, default=0)
     ap.add_argument('--seconds', type=float, default=0)
